@@ -1,15 +1,15 @@
 ------------------------------ MODULE MCBatch ------------------------------
-EXTENDS Batch
-SmallConfigs == { [N |-> n, PSize |-> s, W |-> w, FailAt |-> f] :
-                    n \in 0..6, s \in 1..3, w \in 1..3, f \in 0..6 } 
-MCSmall == { c \in SmallConfigs : c.FailAt <= c.N }
+EXTENDS Batch, TLC
+F1(n) == {{}} \cup {{i} : i \in 1..n}
+F2(n) == F1(n) \cup {{i, j} : i, j \in 1..n}
+MCSmall == UNION { { [N |-> n, PSize |-> s, W |-> w, Fail |-> f] : s \in 1..3, w \in 1..3, f \in F2(n) } : n \in 0..5 }
 (* the code's real constants: partition_size = 100 *)
-MCReal == { [N |-> n, PSize |-> 100, W |-> w, FailAt |-> f] :
-              n \in {1, 99, 100, 101, 250, 450}, w \in {1, 2, 4}, f \in {0, 1, 99, 100, 101, 200, 450} }
-MCRealOk == { c \in MCReal : c.FailAt <= c.N }
+Fs == {{}, {1}, {99}, {100}, {101}, {200}, {450}, {100, 101}, {1, 450}}
+MCRealOk == UNION { { [N |-> n, PSize |-> 100, W |-> w, Fail |-> f] : w \in {1, 2, 4}, f \in {x \in Fs : x \subseteq 1..n} } :
+                    n \in {1, 99, 100, 101, 250, 450} }
 (* behaviours of these instances are dumped and replayed into the real code *)
-MCReplay == { [N |-> 250, PSize |-> 100, W |-> 2, FailAt |-> f] : f \in {0, 1, 100, 101, 250} }
-            \cup { [N |-> 101, PSize |-> 100, W |-> w, FailAt |-> f] : w \in {1, 2}, f \in {0, 100, 101} }
-            \cup { [N |-> 1, PSize |-> 100, W |-> 1, FailAt |-> f] : f \in {0, 1} }
-            \cup { [N |-> 0, PSize |-> 100, W |-> 1, FailAt |-> 0] }
+MCReplay == { [N |-> 250, PSize |-> 100, W |-> 2, Fail |-> f] : f \in {{}, {1}, {100}, {101}, {250}, {100, 201}} }
+            \cup { [N |-> 101, PSize |-> 100, W |-> w, Fail |-> f] : w \in {1, 2}, f \in {{}, {100}, {101}} }
+            \cup { [N |-> 1, PSize |-> 100, W |-> 1, Fail |-> f] : f \in {{}, {1}} }
+            \cup { [N |-> 0, PSize |-> 100, W |-> 1, Fail |-> {}] }
 =============================================================================
